@@ -28,17 +28,23 @@ func (l c31Level) dv() *ua.DataValue {
 		return server.DataValueFromValue(byte(l.Val))
 	case "uint32":
 		return server.DataValueFromValue(uint32(l.Val))
+	case "int32":
+		return server.DataValueFromValue(int32(l.Val))
 	case "string":
 		return server.DataValueFromValue(fmt.Sprint(l.Val))
 	}
 	return nil
 }
 
-// lacks reports whether the level is present as a Byte without the flag.
-func (l c31Level) lacks(flag uint8) bool { return l.Kind == "byte" && l.Val&flag == 0 }
+// lacks reports whether the level is present as an integer without the flag (the attribute is a Byte; a level stored
+// with another integer type still lacks the flag by value).
+func (l c31Level) lacks(flag uint8) bool {
+	return (l.Kind == "byte" || l.Kind == "uint32" || l.Kind == "int32") && l.Val&flag == 0
+}
 
 type c31Node struct {
 	Name string   `json:"name"`
+	NC   string   `json:"node_class_attribute"`
 	AL   c31Level `json:"access_level"`
 	UAL  c31Level `json:"user_access_level"`
 	cur  int64
@@ -53,7 +59,10 @@ type c31Op struct {
 	Hist  []string `json:"recent_ops,omitempty"`
 }
 
-var c31Levels = []c31Level{{"absent", 0}, {"byte", 0}, {"byte", 1}, {"byte", 2}, {"byte", 3}, {"byte", 0xfc}, {"uint32", 3}, {"string", 3}}
+var c31Levels = []c31Level{{"absent", 0}, {"byte", 0}, {"byte", 1}, {"byte", 2}, {"byte", 3}, {"byte", 0xfc}, {"uint32", 3}, {"string", 3}, {"uint32", 0}, {"uint32", 1}, {"int32", 2}}
+
+// node classes the value-carrying nodes are declared with: the levels apply to every node that has a value
+var c31Classes = []string{"variable-uint32", "absent", "variable-int32", "variabletype", "object"}
 
 func c31RunOne(c *fw.Ctx, run int64) {
 	r := c.Rng("c31", run)
@@ -66,10 +75,19 @@ func c31RunOne(c *fw.Ctx, run int64) {
 	var nodes []*c31Node
 	for i, al := range c31Levels {
 		for j, ual := range c31Levels {
-			n := &c31Node{Name: fmt.Sprintf("n%d_%d", i, j), AL: al, UAL: ual, cur: int64(1000*i + j)}
+			n := &c31Node{Name: fmt.Sprintf("n%d_%d", i, j), AL: al, UAL: ual, cur: int64(1000*i + j), NC: c31Classes[(i*3+j+int(run))%len(c31Classes)]}
 			at := map[ua.AttributeID]*ua.DataValue{
 				ua.AttributeIDBrowseName: server.DataValueFromValue(attrs.BrowseName(n.Name)),
-				ua.AttributeIDNodeClass:  server.DataValueFromValue(uint32(ua.NodeClassVariable)),
+			}
+			switch n.NC {
+			case "variable-uint32":
+				at[ua.AttributeIDNodeClass] = server.DataValueFromValue(uint32(ua.NodeClassVariable))
+			case "variable-int32":
+				at[ua.AttributeIDNodeClass] = server.DataValueFromValue(int32(ua.NodeClassVariable))
+			case "variabletype":
+				at[ua.AttributeIDNodeClass] = server.DataValueFromValue(uint32(ua.NodeClassVariableType))
+			case "object":
+				at[ua.AttributeIDNodeClass] = server.DataValueFromValue(uint32(ua.NodeClassObject))
 			}
 			if d := al.dv(); d != nil {
 				at[ua.AttributeIDAccessLevel] = d
@@ -126,7 +144,7 @@ func c31RunOne(c *fw.Ctx, run int64) {
 			c.Class(fmt.Sprintf("read:must-deny=%v", denied), 1)
 			if denied && hasValue {
 				op.Hist = hist
-				c.Violation("c31:value-read-without-CurrentRead", fmt.Sprintf("read of %s (AL=%v UAL=%v) returned value %v", n.Name, n.AL, n.UAL, dv.Value.Value()), op)
+				c.Violation("c31:value-read-without-CurrentRead", fmt.Sprintf("read of %s (node class attribute %s, AL=%v UAL=%v) returned value %v", n.Name, n.NC, n.AL, n.UAL, dv.Value.Value()), op)
 			}
 			if !denied && n.AL.Kind != "uint32" && n.AL.Kind != "string" && n.UAL.Kind != "uint32" && n.UAL.Kind != "string" {
 				if !hasValue || dv.Value.Value() != n.cur {
@@ -152,7 +170,7 @@ func c31RunOne(c *fw.Ctx, run int64) {
 			if denied {
 				if res.Results[0] == ua.StatusOK {
 					op.Hist = hist
-					c.Violation("c31:write-accepted-without-CurrentWrite", fmt.Sprintf("write to %s (AL=%v UAL=%v) answered Good", n.Name, n.AL, n.UAL), op)
+					c.Violation("c31:write-accepted-without-CurrentWrite", fmt.Sprintf("write to %s (node class attribute %s, AL=%v UAL=%v) answered Good", n.Name, n.NC, n.AL, n.UAL), op)
 				}
 				if now != n.cur {
 					op.Hist = hist
@@ -188,7 +206,7 @@ func c31RunOne(c *fw.Ctx, run int64) {
 		if len(hist) > 8 {
 			hist = hist[1:]
 		}
-		c.Nontrivial(fmt.Sprintf("%d/%s/%s/%v/%v", run, op.Op, n.Name, n.AL, n.UAL))
+		c.Nontrivial(fmt.Sprintf("%d/%s/%s/%s/%v/%v", run, op.Op, n.Name, n.NC, n.AL, n.UAL))
 	}
 	c.Done(run)
 }
